@@ -97,7 +97,8 @@ def classify(ctx, recs, cfg, prop_names, label):
     # a creation that differs from the model cannot be judged by a step property: report it
     violations += [(r, "creation") for r in no_trace]
     rounds = 0
-    while pending and rounds < 8:
+    accepted = False
+    while pending and rounds < 6:
         rounds += 1
         path = os.path.join(ctx.work, f"mismatch-{label}-{rounds}.ndjson")
         offsets = []
@@ -112,14 +113,18 @@ def classify(ctx, recs, cfg, prop_names, label):
         ok, info, res = ctx.validate("TraceTracker", "TraceTracker.cfg", path, timeout=900, env=C1,
                                      label=f"statement check of {len(pending)} steps on which code and model differ")
         if ok:
+            accepted = True
             break
         # position of the offending record: the behaviour was followed up to state `distinct`
         pos = max(res.distinct - 1, 1)
         idx = max(i for i, o in enumerate(offsets) if o <= pos) if offsets else 0
         bad = pending.pop(idx)
         violations.append((bad, str(info.get("violated") or info.get("rejected"))))
-    drift = [r for r in pending]
-    return violations, drift
+    if pending and not accepted:
+        # the cap on TLC rounds was reached with violations already reported: the rest is unjudged
+        vlib.log(f"{label}: {len(pending)} further differing steps were not classified (violations already reported)")
+        return violations, []
+    return violations, list(pending)
 
 
 def replay_family(ctx, engine, fam, res, threads, stats):
